@@ -47,12 +47,15 @@ Inductive pline :=
 (** Header facts of a DATA block as Deliver sees them (enmime): first address of a parsable,
     non-empty From header; the To header's address list when it parses; the Subject. *)
 Record hdrinfo := { h_from : option str; h_to : option (list str); h_subject : str }.
-(** A before.message_stored hook's replacement of the inbound message. *)
-Record inbound := { i_mailboxes : list str; i_from : str; i_to : list str; i_subject : str; i_size : Z }.
+(** What a before.message_stored hook changed in the inbound message it was handed (a copy
+    holding all recipients' mailboxes, the From/To/Subject Deliver derived, and the size) before
+    returning it: each field either kept or replaced. Size is read-only for hooks. *)
+Record overrides := { ov_mailboxes : option (list str); ov_from : option str;
+                      ov_to : option (list str); ov_subject : option str }.
 
 Inductive payload :=
   | PEof                                           (* connection ended inside the block *)
-  | PBlock (body : str) (hdr : option hdrinfo) (hook : option inbound).
+  | PBlock (body : str) (hdr : option hdrinfo) (hook : option overrides).
       (* un-stuffed bytes; None = header block unparsable *)
 
 Inductive item := L (l : pline) | B (p : payload) | Eof.
@@ -87,7 +90,7 @@ Inductive stepres :=
 
 (** Deliver: one delivery per destination mailbox, in order. *)
 Definition deliveries_for (c : scfg) (o : origin) (rs : list recipient) (hl : str)
-    (body : str) (h : hdrinfo) (hook : option inbound) : list delivery :=
+    (body : str) (h : hdrinfo) (hook : option overrides) : list delivery :=
   let from_h := match h_from h with Some a => a | None => o_addr o end in
   let to_h := match h_to h with Some l => l | None => map r_addr rs end in
   let size := Z.of_nat (length body) in
@@ -97,11 +100,15 @@ Definition deliveries_for (c : scfg) (o : origin) (rs : list recipient) (hl : st
                        d_subject := h_subject h; d_size := size;
                        d_retpath := o_addr o; d_helo := hl; d_body := body |})
           (filter (fun r => should_store (pol c) (r_domain r)) rs)
-  | Some i =>
-      map (fun mb => {| d_mailbox := mb; d_from := i_from i; d_to := i_to i;
-                        d_subject := i_subject i; d_size := i_size i;
+  | Some ov =>
+      (* the hook's answer replaces the inbound message wholesale and bypasses the store policy *)
+      let from_o := match ov_from ov with Some a => a | None => from_h end in
+      let to_o := match ov_to ov with Some l => l | None => to_h end in
+      let subj_o := match ov_subject ov with Some x => x | None => h_subject h end in
+      map (fun mb => {| d_mailbox := mb; d_from := from_o; d_to := to_o;
+                        d_subject := subj_o; d_size := size;
                         d_retpath := o_addr o; d_helo := hl; d_body := body |})
-          (i_mailboxes i)
+          (match ov_mailboxes ov with Some l => l | None => map r_mailbox rs end)
   end.
 
 Definition ehlo_reply (c : scfg) : list rline :=
